@@ -21,6 +21,16 @@ Results: an execution (own or shared through `startExecution`) ends with an `Out
 bare error plus the `taskFailure` marker; every activation that takes it (the executor and
 each dedup waiter) derives its own result with `wrapFor` from its own `indirect` flag
 (`Act.out` ↦ `Act.res`; invariant `res = wrapFor indirect out`, `S2.OutInv`).
+
+Waiting for a deduplicated task (fix of `C07-once-cycle-deadlocks`): every activation knows
+the innermost registered execution it is part of (`Act.par`, the context value
+`executionKey{}`; inherited at `enter`, also by deferred calls); `Config.waits` records, per
+execution, the executions it cannot finish before — those registered from within it and
+those one of its calls waits for (`Eff.reg`, `Eff.wait`; never removed, an edge whose source
+has finished is ignored).  A call that finds its key registered waits (`Ev.waiter`) unless
+the registered execution reaches the caller's own along `waits` (`reaches`,
+`Config.execWaitsFor` = `other.waitsFor(parent)`); then the wait is refused (`Ev.waitCycle`)
+and the call returns 204.  `S7.WInv`: the relation is acyclic on unfinished executions.
 -/
 namespace TaskModel.Sched
 
@@ -131,6 +141,8 @@ structure Act where
   holds : Bool := false          -- holds a concurrency slot
   key : Option Nat := none       -- dedup key under which this activation is the registered execution
   waitsFor : Option Nat := none  -- dedup key this activation waits on
+  par : Option Nat := none       -- the innermost registered execution (its dedup key) this activation is part
+                                 -- of: `ctx.Value(executionKey{})`; fixed when the activation is created
   kids : List (Nat × Nat) := []  -- slot ↦ child activation id (deps: slot = j; call of cmd i: slot = ndeps + i)
   regs : List Nat := []          -- history: deferred entries registered, in order
   stack : List Nat := []         -- deferred entries still to run (top first)
@@ -146,6 +158,8 @@ structure Config where
   acts : List (Nat × Act) := []      -- newest binding first; `lookup` = current state
   tokens : Nat := 0                  -- slots in use
   execs : List (Nat × Nat) := []     -- dedup key ↦ registered activation
+  waits : List (Nat × Nat) := []     -- `execution.waits`: (p, k) = execution p cannot finish before execution k
+                                     -- (k was registered from within p, or a call inside p waits for k); never removed
   calls : List (Nat × Nat) := []     -- task ↦ call count (newest first)
   tops : List (Nat × Nat) := []      -- k ↦ top activation id
   ncalls : Nat := 0
@@ -160,6 +174,7 @@ inductive Ev
   | acquire
   | register (key : Nat)
   | waiter (key : Nat)
+  | waitCycle (key : Nat)         -- the wait is refused: the registered execution waits for the caller's own
   | wRelease | wWake | wReacq
   | depsRelease | depsReacq
   | depsDone (r : Res)            -- the error `g.Wait()` returned (`ok` if none)
@@ -340,10 +355,25 @@ def promptRes (F : Flags) : Res := if F.promptErr then .generic else .typed 205
 
 /-! ### the transition function -/
 
+/-- the execution the children of `x` are part of: its own, if `x` is the registered execution of a
+deduplicated task (`execute(context.WithValue(ctx, executionKey{}, this))`), else the one it is part
+of itself.  (`runDeferred` keeps the values of the task's context, so deferred calls are covered.) -/
+def Act.inner (x : Act) : Option Nat :=
+  match x.key with
+  | some k => some k
+  | none => x.par
+
+/-- `ctx.Value(executionKey{})` of a new activation: the `inner` execution of its creator; a call
+given to `Run` is part of none -/
+def parentExec (c : Config) : Kind → Option Nat
+  | .top _ => none
+  | .dep p _ => (match c.act? p with | some px => px.inner | none => none)
+  | .call p _ _ => (match c.act? p with | some px => px.inner | none => none)
+
 /-- the activation a freshly entered label creates -/
 def freshAct (P : Program) (F : Flags) (c : Config) (kind : Kind) (t : Nat) : Act :=
   let x0 : Act := { kind, task := t, indirect := (match kind with | .top _ => false | _ => true),
-                    phase := .entered, def_ := (P[t]?).getD {} }
+                    phase := .entered, def_ := (P[t]?).getD {}, par := parentExec c kind }
   match earlyResult P[t]? (c.callCount t + 1) F.maxCalls with
   | some r => { x0 with phase := .early, res := r, out := ⟨r, false⟩ }
   | none => x0
@@ -403,9 +433,11 @@ structure Obs where
   deps : Unit → Option (List Res) -- results of all dependency activations, once all have exited
   callKid : Unit → Option Res     -- result of the activation called by the current `task:` command, once exited
   registered : Nat → Bool         -- is a dedup key registered?
+  cyc : Nat → Bool                -- `parent != nil && other.waitsFor(parent)`: does the execution registered under
+                                  -- the key wait (directly or through others) for the execution the activation is part of?
   execResult : Unit → Option Outcome  -- what the execution this waiter waits for ended with, once it has finished
 
-inductive Eff | none | acq | rel | reg (k : Nat)
+inductive Eff | none | acq | rel | reg (k : Nat) | wait (k : Nat)
 deriving DecidableEq, Repr
 
 /-- one step of one activation (everything except `enter`) -/
@@ -419,8 +451,13 @@ def stepLocal (F : Flags) (o : Obs) (x : Act) (ev : Ev) : Option (Act × Eff) :=
     if x.def_.run = .always || o.registered k then none
     else some ({ x with phase := .exec, key := some k }, .reg k)
   | .waiter k, .acquired =>
-    if x.def_.run = .always || !o.registered k then none
-    else some ({ x with phase := .wWaiting, waitsFor := some k }, .none)
+    if x.def_.run = .always || !o.registered k || o.cyc k then none
+    else some ({ x with phase := .wWaiting, waitsFor := some k }, .wait k)
+  | .waitCycle k, .acquired =>
+    -- the registered execution waits for the one this call is part of: waiting would never end;
+    -- `startExecution` returns `TaskCalledTooManyTimesError` (204), unmarked
+    if x.def_.run = .always || !o.registered k || !o.cyc k then none
+    else some (x.stop (.typed 204), .none)
   | .wRelease, .wWaiting => some ({ x with phase := .wReleased, holds := false }, .rel)
   | .wWake, .wReleased =>
     -- the waiter returns only once the registered execution has really finished, with its outcome
@@ -539,6 +576,18 @@ def execResultOf (c : Config) (k? : Option Nat) : Option Outcome :=
       | some ex =>
         if ex.phase = .execDoneP || ex.phase = .released || ex.phase = .done then some ex.out else none
 
+/-- `<-x.done` would not block: the execution registered under `k` has finished -/
+def execFinished (c : Config) (k : Nat) : Bool := (execResultOf c (some k)).isSome
+
+/-- `other.waitsFor(target)` (task.go): is `p` reachable from `k` along `waits`, not going on from an
+execution that has finished?  `k = p` counts.  Fuel: a simple path visits each registered execution
+at most once (`Config.execWaitsFor`). -/
+def reaches (c : Config) : Nat → Nat → Nat → Bool
+  | 0, k, p => k == p
+  | fuel+1, k, p => k == p || (!(execFinished c k) && c.waits.any (fun e => e.1 == k && reaches c fuel e.2 p))
+
+def Config.execWaitsFor (c : Config) (k p : Nat) : Bool := reaches c c.execs.length k p
+
 def callKidOf (c : Config) (x : Act) : Option Res :=
   match x.phase with
   | .inCall i _ =>
@@ -553,13 +602,22 @@ def obsOf (F : Flags) (c : Config) (a : Nat) (x : Act) : Obs :=
     deps := fun _ => depResults c x x.def_.deps.length 0
     callKid := fun _ => callKidOf c x
     registered := fun k => (c.execs.lookup k).isSome
+    cyc := fun k => (match x.par with | some p => c.execWaitsFor k p | none => false)
     execResult := fun _ => execResultOf c x.waitsFor }
+
+/-- `parent.waits = append(parent.waits, …)`: activation `a`, part of execution `p`, registers or starts
+to wait for execution `k`; an activation that is part of no execution adds nothing -/
+def addWait (c : Config) (a k : Nat) : List (Nat × Nat) :=
+  match c.act? a with
+  | some x => (match x.par with | some p => (p, k) :: c.waits | none => c.waits)
+  | none => c.waits
 
 def applyEff (c : Config) (a : Nat) : Eff → Config
   | .none => c
   | .acq => { c with tokens := c.tokens + 1 }
   | .rel => { c with tokens := c.tokens - 1 }
-  | .reg k => { c with execs := (k, a) :: c.execs }
+  | .reg k => { c with execs := (k, a) :: c.execs, waits := addWait c a k }
+  | .wait k => { c with waits := addWait c a k }
 
 def step (P : Program) (F : Flags) (c : Config) (l : Label) : Option Config :=
   match l.ev with
